@@ -94,6 +94,16 @@ def special_programs():
         [["out", ["bin", "sub", ["bin", "mul", i1, i2], ["bin", "mul", i3, i4]]]],
         [["out", ["where", ["cmp", "less", a, b], ["fn", "sin", c], ["fn", "sin", d]]]],
     ]
+    # shape-preserving re-indexings of a square operand (a strategy that recognises "plain copies" must not take a
+    # transposed / rolled / reversed read for one), consumed asymmetrically
+    sq, tq = ph("s", (3, 3), "float64"), ph("t", (3, 3), "float64")
+    sqi = ph("si", (3, 3), "int32")
+    for shuffled in (["T", sq], ["transpose", sq, [1, 0]], ["einsum", "ij->ji", sq], ["roll", sq, 1, 0], ["roll", sq, 1, 1],
+                     ["index", sq, [["s", None, None, -1]]], ["index", sq, [["s", None, None, None], ["s", None, None, -1]]],
+                     ["reshape", sq, [3, 3], "F"], ["T", ["bin", "mul", sq, ["py", 2.0]]], ["T", ["red", "sum", ["stack", 0, sq, tq], 0]],
+                     ["T", sqi]):
+        progs.append([["out", ["bin", "sub", ["bin", "mul", shuffled, ["py", 2.0] if shuffled[-1] is not sqi else ["py", 2]],
+                               tq if shuffled[-1] is not sqi else sqi]]])
     return progs
 
 
